@@ -217,6 +217,24 @@ Ltac norm_hyps :=
          | H : forallb (fun i => i <? _) _ = true |- _ => apply forallb_lt_Forall in H
          end.
 
+Lemma first_nonzero_const ws w0 :
+  ws <> [] -> (forall w, In w ws -> w = w0) -> first_nonzero ws = w0.
+Proof.
+  intros NE H. unfold first_nonzero. destruct (find (fun w => negb (w =? 0)) ws) eqn:E.
+  - apply find_some in E. apply H. tauto.
+  - destruct ws as [|w ws]; [congruence|].
+    pose proof (find_none _ _ E w (or_introl eq_refl)) as Hz. apply negb_false_iff, Nat.eqb_eq in Hz.
+    rewrite <- (H w (or_introl eq_refl)). symmetry. exact Hz.
+Qed.
+
+Lemma wf_union_width x ts :
+  forallb (fun y => width y =? width x) ts = true -> width (Union (x :: ts)) = width x.
+Proof.
+  intros H. cbn [width]. apply first_nonzero_const; [discriminate|].
+  intros w Hw. apply in_map_iff in Hw. destruct Hw as [y [E Hy]]. subst w.
+  destruct Hy as [<-|Hy]; [reflexivity|]. apply Nat.eqb_eq. exact (proj1 (forallb_forall _ _) H y Hy).
+Qed.
+
 Lemma den_width d t :
   wfd d t = true -> novoid t = true -> Forall (fun x : tuple => length x = width t) (den t d).
 Proof.
@@ -248,7 +266,8 @@ Proof.
     assert (Wy : wfd d y = true) by (exact (proj1 (forallb_forall _ _) W1 y Hy)).
     assert (Vy : novoid y = true) by (exact (proj1 (forallb_forall _ _) V2 y Hy)).
     pose proof (H y Hy Wy Vy) as IH. rewrite Forall_forall in IH. rewrite (IH x Hx).
-    destruct ts as [|z ts]; [destruct Hy|]. destruct Hy as [->|Hy]; [reflexivity|].
+    destruct ts as [|z ts]; [destruct Hy|]. pose proof (wf_union_width z ts W2) as HU. cbn [width] in HU. rewrite HU.
+    destruct Hy as [->|Hy]; [reflexivity|].
     apply Nat.eqb_eq. exact (proj1 (forallb_forall _ _) W2 y Hy).
   - (* Aggregate *) norm_hyps.
     match goal with H : length s = _ |- _ => rewrite H end.
@@ -364,7 +383,7 @@ Proof.
     + destruct ts; [discriminate | reflexivity].
     + apply forallb_forall. intros y Hy. apply in_map_iff in Hy. destruct Hy as [x [E Hx]]. subst y.
       rewrite Forall_forall in HS. apply (HS x Hx).
-  - destruct ts as [|x ts]; [reflexivity|]. cbn [map] in *. inversion HW. reflexivity.
+  - rewrite HW. reflexivity.
   - clear -HS. induction HS as [|x ts [_ [_ HP]] _ IH]; cbn; [constructor|].
     apply Permutation_app; assumption.
 Qed.
@@ -541,7 +560,7 @@ Proof.
     { rewrite (filter_ext_in' _ (fun _ => true)); [apply filter_true|].
       intros x Hx. rewrite (NE x); [reflexivity|]. exact (proj1 (forallb_forall _ _) V2 x Hx). }
     rewrite HF. destruct inputs as [|x [|y r]]; [discriminate | | apply Step_refl; exact I].
-    cbn [forallb] in *. split_andb. split; [split; assumption|]. split; [reflexivity|].
+    cbn [forallb] in *. split_andb. split; [split; assumption|]. split; [symmetry; apply (wf_union_width x []); reflexivity|].
     cbn [den flat_map]. rewrite app_nil_r. apply Permutation_refl.
   - (* Antijoin *) pose proof I as [W V]. cbn [novoid] in V. split_andb. rewrite (NE a1) by assumption. apply Step_refl; exact I.
   - (* Compute *) pose proof I as [W V]. cbn [novoid] in V. rewrite (NE a V). apply Step_refl; exact I.
@@ -607,6 +626,16 @@ Proof.
   destruct (eval_pred p (a ++ excluding rk b)); reflexivity.
 Qed.
 
+Lemma filter_length_le' {A} (f : A -> bool) l : length (filter f l) <= length l.
+Proof. induction l as [|a l IH]; cbn; [lia|]. destruct (f a); cbn; lia. Qed.
+
+Lemma filter_length_eq {A} (f : A -> bool) l : length (filter f l) = length l -> filter f l = l.
+Proof.
+  induction l as [|a l IH]; cbn; [reflexivity|]. destruct (f a); cbn; intros H.
+  - f_equal. apply IH. lia.
+  - pose proof (filter_length_le' f l). lia.
+Qed.
+
 Lemma ok_pushdown d : local_ok d f_pushdown.
 Proof.
   intros a I. destruct a; try (apply Step_refl; exact I). cbn [f_pushdown].
@@ -624,10 +653,15 @@ Proof.
     + cbn [den]. apply Permutation_refl'. symmetry. apply push_left with (lc := width a1); try assumption.
       intros c Hc. pose proof (existsb_false_forall _ _ RR c Hc) as H. apply Nat.leb_gt in H. exact H.
   - (* only right-side columns *)
-    destruct ((width a1 + length (nonkey_cols (width a2) rk) =? length sch) &&
-              forallb (fun c => c - width a1 <? length (nonkey_cols (width a2) rk)) (pred_cols p)) eqn:C;
+    assert (HN : (if width a1 + width a2 =? length sch then seq 0 (width a2)
+                  else if width a1 + length (nonkey_cols (width a2) rk) =? length sch
+                       then nonkey_cols (width a2) rk else []) = nonkey_cols (width a2) rk).
+    { destruct (width a1 + width a2 =? length sch) eqn:E1.
+      - apply Nat.eqb_eq in E1. symmetry. unfold nonkey_cols in *. apply filter_length_eq. rewrite seq_length. lia.
+      - rewrite (proj2 (Nat.eqb_eq _ _) (eq_sym Hs)). reflexivity. }
+    rewrite HN.
+    destruct (forallb (fun c => c - width a1 <? length (nonkey_cols (width a2) rk)) (pred_cols p)) eqn:C;
       [|apply Step_refl; exact I].
-    apply andb_true_iff in C. destruct C as [_ C].
     split; [|split; [reflexivity|]].
     + split; cbn [wfd novoid width]; [exact Wj|]. rewrite is_false_remap, Fp. exact Vj.
     + cbn [den]. apply Permutation_refl'. symmetry. apply push_right; try assumption.
